@@ -98,6 +98,34 @@ PROPS = {
         'assumptions': ['dragonboat Entries returns a non-empty prefix of the requested range inside the log; the history below the applied index is immutable (Raft)'],
         'trusted': ['modelled, not verified: dragonboat log reader (stub in the harness), gRPC stream'],
     },
+    'C13': {
+        'level_text': "Lean theorems about the transcription of LFSM.Update: compare-and-set law for set and delete on existing keys (mismatch reports the current pair and changes nothing), absent keys unchecked, every new version is the entry's log index and larger than every version handed out before (VersBelow invariant, lifted to whole histories), lookups reflect exactly the updates that passed the check, batching independence / determinism. Tied to the code by differential runs of the real LFSM: random set/delete/unknown-op sequences with stale/current/zero/future versions, two instances under different batchings, snapshot+restore into fresh, equal and lagging (diverged) instances, every lookup kind incl. glob and directory listings.",
+        'level_note': "Trusted: Lean kernel, harness. JSON (de)serialisation of updates and of the snapshot is assumed to round-trip (the model restores a copy); path.Match is modelled for the pattern shapes the callers use (literal, literal prefix + '*'); list/listDir for clean absolute paths.",
+        'modules': ['Regatta.Props.C13'],
+        'runs': [{'name': 'meta', 'harness': 'meta', 'driver': 'meta', 'quick': {'VERIF_N': 150}, 'thorough': {'VERIF_N': 6000}}],
+        'rule': 'random update sequences on the real kv.LFSM (3-4 instances: whole batch / entry by entry / lagging prefix / restored), versions stale, current, zero and future, snapshot restore into fresh, equal and diverged stores, all six lookup kinds on 10 keys and 6 patterns',
+        'assumptions': ['encoding/json round-trips kv.Update, kv.Pair and the map snapshot', 'Raft delivers the same entries with the same increasing indices to every replica'],
+        'trusted': ['modelled, not verified: encoding/json, path.Match outside the modelled pattern shapes'],
+    },
+    'C14': {
+        'level_text': "Lean theorems for every interleaving of the store calls of any number of managers (System.run): the id sequence invariant (SeqInv, ~300 lines: key spaces disjoint for valid names, sequence never deleted, a pending sequence write can only succeed if the value it read is still current) giving: ids handed out are strictly increasing and beyond the reserved range, each id is greater than every id assigned before; a creation's record write succeeds iff no record of that name exists (decides races); deletion iff present; listing = stored records; diffTables = exactly (catalogued, not running, > 10000) / (running, not catalogued, > 10000). Tied to the code by differential runs of the real Manager (createTable, DeleteTable, LeaseTable, ReturnTable) of 3 nodes over the real LFSM under a seeded scheduler that interleaves at single-store-call granularity, hostile names in the pool (D10/D12 regression), and diffTables on random sets.",
+        'level_note': "Trusted: Lean kernel, harness. Emptiness of a (re)created table and cross-table isolation follow from id freshness (data directory and shard id keyed by a never-used id) and are exercised end-to-end only through the engine-level runs of other checks, not proved here. Restore's id hand-out uses the same incAndGetIDSeq (modelled by the same call).",
+        'modules': ['Regatta.Props.C14'],
+        'runs': [{'name': 'catalog', 'harness': 'catalog', 'driver': 'catalog', 'quick': {'VERIF_N': 500}, 'thorough': {'VERIF_N': 30000}}],
+        'rule': 'scenarios of 30-60 scheduler steps: up to 3 concurrent manager calls (create/delete/lease/return) of 3 nodes over one real LFSM, a seeded scheduler picks which parked store call proceeds; names a, b, sys, ab plus hostile ones (a/lease, sys/idseq, empty, 200/201 bytes, NUL, a[b, non-ASCII); catalogue listing and lease records compared after steps; diffTables on random catalogue/running sets',
+        'assumptions': ['metadata store = C13 (CAS register map); StaleRead of the local replica is modelled as a read of the current state (single metadata replica in the harness)'],
+        'trusted': ['modelled, not verified: dragonboat (shard start/stop driven by diffTables), JSON of table records'],
+    },
+    'C15': {
+        'level_text': "Lean theorems for every interleaving, at the granularity of single store reads and writes, of lease / renew / return calls of any number of nodes with a shared non-decreasing clock (System.run with ticks): invariant LInv (a pending request's decision stays justified while the record it read is current); no stealing: a successful lease write only ever replaces an absent record, the caller's own, or an expired one; of racing requests the later write gets a version mismatch; a request reaches its write only if at its read the table was unclaimed / own / expired; return deletes only the caller's own record version. Tied to the code by the catalog correspondence run (real Manager.LeaseTable/ReturnTable of 3 nodes over the real LFSM, seeded store-call scheduler, long and already-expired durations) and by the meta run (the CAS law the argument rests on).",
+        'level_note': "Trusted: Lean kernel, harness. One shared clock is assumed (time.Now skew between nodes is outside the model); durations in the runs are +1h / -1h so that real time passing during a run cannot change a decision.",
+        'modules': ['Regatta.Props.C15'],
+        'runs': [{'name': 'catalog', 'harness': 'catalog', 'driver': 'catalog', 'quick': {'VERIF_N': 500}, 'thorough': {'VERIF_N': 30000}},
+                 {'name': 'meta', 'harness': 'meta', 'driver': 'meta', 'quick': {'VERIF_N': 60}, 'thorough': {'VERIF_N': 2000}}],
+        'rule': 'as C14 (lease/return calls are ~50% of the generated calls, 1/3 with an already expired duration) plus the CAS law runs of C13',
+        'assumptions': ['one shared non-decreasing clock', 'metadata store = C13'],
+        'trusted': ['modelled, not verified: wall-clock time, JSON of lease records'],
+    },
 }
 
 NOT_YET = {}
